@@ -40,6 +40,30 @@ Definition set_flags (sec unk : bool) (l : layer) : layer :=
 
 Definition unknown_layer (sec : bool) (c : sch) : layer := LScalar sec true c SNull.
 
+(* nesting depth of a chain, over ALL layers and members (shadowed ones included): an upper bound of the depth of the
+   merged view, i.e. of the fuel [export] needs (Proofs/RefSem2Depth.v: export_total_depth).  An object / array layer has
+   depth >= 2 whatever its members (an empty member chain exports as an unknown scalar). *)
+Fixpoint ldepth (l : layer) : nat :=
+  match l with
+  | LScalar _ _ _ _ => 1
+  | LArr _ _ _ elems =>
+      S ((fix go (es : list (list layer)) : nat :=
+            match es with
+            | [] => 0
+            | c :: r => Nat.max (Nat.max 1 ((fix g2 (c : list layer) : nat :=
+                                    match c with [] => 0 | l :: r' => Nat.max (ldepth l) (g2 r') end) c)) (go r)
+            end) elems)
+  | LObj _ _ _ props =>
+      S ((fix go (ps : list (string * list layer)) : nat :=
+            match ps with
+            | [] => 0
+            | kc :: r => Nat.max (Nat.max 1 ((fix g2 (c : list layer) : nat :=
+                                    match c with [] => 0 | l :: r' => Nat.max (ldepth l) (g2 r') end) (snd kc))) (go r)
+            end) props)
+  end%nat.
+
+Fixpoint cdepth (c : chain) : nat := match c with [] => O | l :: r => Nat.max (ldepth l) (cdepth r) end.
+
 (* ---------------- association lists ---------------- *)
 Fixpoint alookup {A} (k : string) (m : list (string * A)) : option A :=
   match m with
@@ -101,7 +125,22 @@ Fixpoint sch_item (fuel : nat) (i : nat) (s : sch) : sch :=
     end
   end.
 
-Definition sch_fuel : nat := 64%nat.
+(* nesting depth of a schema: the fuel that suffices for [sch_property] / [sch_item] (they descend through oneOf
+   alternatives only), [merged_schema] (through object properties only) and Eval.sch_is_type (oneOf); proved in
+   Proofs/HelperFuel.v (sch_*_fuel_stable): with this fuel the [O] branches are unreachable *)
+Fixpoint sch_depth (s : sch) : nat :=
+  match s with
+  | ScArray prefix items =>
+      S (Nat.max ((fix go (l : list sch) : nat := match l with [] => O | x :: r => Nat.max (sch_depth x) (go r) end) prefix)
+                 (match items with Some i => sch_depth i | None => O end))
+  | ScObject props addl =>
+      S (Nat.max ((fix go (l : list (string * sch)) : nat :=
+                     match l with [] => O | x :: r => Nat.max (sch_depth (snd x)) (go r) end) props)
+                 (match addl with Some a => sch_depth a | None => O end))
+  | ScOneOf alts =>
+      S ((fix go (l : list sch) : nat := match l with [] => O | x :: r => Nat.max (sch_depth x) (go r) end) alts)
+  | _ => 1%nat
+  end.
 
 (* value.go mergedSchema *)
 Fixpoint merged_schema (fuel : nat) (base : option sch) (top : sch) : sch :=
@@ -129,7 +168,7 @@ Fixpoint merged_schema (fuel : nat) (base : option sch) (top : sch) : sch :=
 Fixpoint chain_sch (c : chain) : option sch :=
   match c with
   | [] => None
-  | l :: rest => Some (merged_schema sch_fuel (chain_sch rest) (l_sch l))
+  | l :: rest => Some (merged_schema (sch_depth (l_sch l)) (chain_sch rest) (l_sch l))
   end.
 
 Definition top_sch (c : chain) : sch := match chain_sch c with Some s => s | None => ScAlways end.
@@ -161,7 +200,7 @@ Fixpoint property (k : string) (c : chain) : chain :=
       | None => property k rest
       end
   | l :: rest =>
-      if l_unk l then unknown_layer false (sch_property sch_fuel k (top_sch c)) :: property k rest
+      if l_unk l then (let s := top_sch c in unknown_layer false (sch_property (sch_depth s) k s)) :: property k rest
       else []
   end.
 
